@@ -1068,6 +1068,13 @@ func (fr *Frame) instr(b *ssa.BasicBlock, in ssa.Instruction, st *State, g strin
 	case *ssa.Range:
 		fr.rangeOf[x] = x.X
 		fr.vals[x] = "0"
+		if m, ok := x.X.Type().Underlying().(*types.Map); ok {
+			// ghost: the set of keys this range statement has produced so far
+			name := fr.visitedVar(x)
+			if name != "" {
+				st = fr.setVar(st, name, vc.constArray(fmt.Sprintf("(Array %s Bool)", vc.sortOf(m.Key())), "false"))
+			}
+		}
 		return st
 	case *ssa.Next:
 		return fr.next(st, g, x)
@@ -1648,12 +1655,89 @@ func (fr *Frame) next(st *State, g string, x *ssa.Next) *State {
 	fr.refFacts(v, vt, st)
 	val, has := fr.mapRead(st, m, fr.val(rng.X), k)
 	vc.assume(implies(ok, and(has, eq(v, val))))
+	// visited set: a key is produced at most once by one range statement, provided the map is not
+	// written inside the loop (the Go specification leaves re-insertion during iteration open)
+	if name := fr.visitedVar(rng); name != "" {
+		cur := st.get(name)
+		if fr.mapStableInLoop(x, m) {
+			vc.assume(implies(ok, not(fmt.Sprintf("(select %s %s)", cur, k))))
+		} else {
+			vc.note("range over map in %s: the map may be written inside the loop, keys are not assumed distinct", fr.fn.String())
+		}
+		st = fr.setVar(st, name, ite(ok, fmt.Sprintf("(store %s %s true)", cur, k), cur))
+	}
 	// a map that yields a key is not empty
 	msz := fmt.Sprintf("(%s_size (select %s %s))", vc.mapSort(m), st.get(vc.mapHeapVar(m)), fr.val(rng.X))
 	vc.assume(implies(ok, vc.leInt(vc.intLitN(1, types.Typ[types.Int]), msz)))
 	fr.tuples[x] = []string{ok, k, v}
-	vc.note("range over map in %s: each iteration sees an arbitrary present key (no visited-set tracking)", fr.fn.String())
 	return st
+}
+
+// visitedVar: the ghost state variable of a map range statement (top-level frame only), named by
+// the ordinal of the statement among the map range statements of the function.
+func (fr *Frame) visitedVar(rng *ssa.Range) string {
+	if !fr.isTop {
+		return ""
+	}
+	m, ok := rng.X.Type().Underlying().(*types.Map)
+	if !ok {
+		return ""
+	}
+	ord := 0
+	for _, b := range fr.fn.Blocks {
+		for _, in := range b.Instrs {
+			if r, ok := in.(*ssa.Range); ok {
+				if r == rng {
+					name := fmt.Sprintf("RV_%d", ord)
+					fr.vc.regStateVar(name, fmt.Sprintf("(Array %s Bool)", fr.vc.sortOf(m.Key())))
+					return name
+				}
+				if _, isMap := r.X.Type().Underlying().(*types.Map); isMap {
+					ord++
+				}
+			}
+		}
+	}
+	return ""
+}
+
+// visitedByOrdinal resolves visited(n, k) of a contract.
+func (fr *Frame) visitedByOrdinal(n int) (string, types.Type) {
+	ord := 0
+	for _, b := range fr.fn.Blocks {
+		for _, in := range b.Instrs {
+			if r, ok := in.(*ssa.Range); ok {
+				if m, isMap := r.X.Type().Underlying().(*types.Map); isMap {
+					if ord == n {
+						return fr.visitedVar(r), m.Key()
+					}
+					ord++
+				}
+			}
+		}
+	}
+	return "", nil
+}
+
+// mapStableInLoop: the innermost loop containing the Next instruction does not write maps of this type.
+func (fr *Frame) mapStableInLoop(x *ssa.Next, m *types.Map) bool {
+	prev := fr.vc.eng.prevWrites[fr.vc.unit]
+	if prev == nil {
+		return false // pass 1
+	}
+	hv := fr.vc.mapHeapVar(m)
+	found := false
+	for _, li := range fr.loops {
+		if !li.body[x.Block().Index] && li.header != x.Block() {
+			continue
+		}
+		found = true
+		ws := fr.loopWrites(li)
+		if ws.allHeaps || ws.names[hv] {
+			return false
+		}
+	}
+	return found
 }
 
 func (fr *Frame) selectInstr(st *State, g string, x *ssa.Select) *State {
